@@ -481,4 +481,46 @@ def reduceAll (op : RedOp) (kv : KV (List Num)) : RedVal := reduceList op (flatA
 def reduceLeafwise (op : RedOp) (kv : KV (List Num)) : List RedVal := kv.map (fun q => reduceList op q.2)
 
 
+/-! ### comparisons with a lazy stack on the left (`LazyStackedTensorDict._dispatch_comparison`) -/
+
+/-- what the right operand of `lazy <cmp> other` can be -/
+inductive CmpOperand (V : Type) where
+  | tensorclass (kv : KV V)              -- evaluated on the operand's side: `getattr(other, inverse_str)(self)`
+  | collection (slices : List (KV V))    -- tensordict / dict / lazy stack of the same batch size, unbound along self's stack dim
+  | shapeMismatch                        -- same number of batch dims, different batch size
+  | scalar (s : V)                       -- number or tensor: handed to every member as is
+  | unsupported                          -- anything else (no default): ValueError
+
+inductive CmpResult (V : Type) where
+  | members (ms : List (KV V))           -- a lazy stack along self's stack dim
+  | dense (kv : KV V)                    -- what the tensorclass computed
+  | default                              -- the `default=` of `==` (False) / `!=` (True) for an operand that is not comparable
+
+/-- the view a regular tensordict / tensorclass has of a lazy stack: under each key (of the first member) the stack of
+the members' entries (`stackV` abstracts `torch.stack(..., stack_dim)`) -/
+def denseOf (stackV : List V → V) (ms : List (KV V)) : KV V :=
+  match ms with
+  | [] => []
+  | m0 :: _ => m0.map (fun q => (q.1, stackV (ms.filterMap (fun m => get? m q.1))))
+
+/-- mirrors `_dispatch_comparison(other, comparison_str, inverse_str, default)`; `op` is the comparison asked
+for, `rop` the one named by `inverse_str`; `hasDefault`: `==` / `!=` pass a default, the ordering comparisons do not -/
+def lazyCmp (op rop : V → V → V) (stackV : List V → V) (hasDefault : Bool) (self : List (KV V)) :
+    CmpOperand V → Except Err (CmpResult V)
+  | .tensorclass kv =>
+    match cmp rop kv (.td (denseOf stackV self)) with
+    | .error e => .error e
+    | .ok r => .ok (.dense r)
+  | .collection sl =>
+    match memberwise (cmp op) self (sl.map Other.td) with
+    | .error e => .error e
+    | .ok ms => .ok (.members ms)
+  | .shapeMismatch => .error .runtime
+  | .scalar s =>
+    match memberwise (cmp op) self (self.map (fun _ => Other.scalar s)) with
+    | .error e => .error e
+    | .ok ms => .ok (.members ms)
+  | .unsupported => if hasDefault then .ok .default else .error .value
+
+
 end TdVerif.C09
